@@ -220,3 +220,92 @@ Definition ex20 : bytes := repeat x07 20.
 Definition ex32 : bytes := repeat x07 32.
 (* a stand-in for hash160 in the Examples (no byte of it is a hexadecimal digit or white space) *)
 Definition no_hash : bytes -> bytes := fun _ => repeat x99 20.
+
+(* ---------- histories on ONE key object.  An HDKey carries a cache (_address_obj: the address object of the LAST call of
+   address(), whatever script type / encoding was asked for) next to the fields that say what the key is (network, witness
+   type, multisig flag, public key).  Output.__init__ calls address.address() with the key's own script type and encoding,
+   which writes the key's standard address object into the cache before address_obj is read: the output is a function of
+   the identity fields, not of the cache.  [hd_out] is that reading; [hd_out_cached] is the reading that trusts the cache
+   (what the code would do if it read address_obj first), which is NOT history-free (refuted in Properties/C05.v). ---------- *)
+Record hdkey_state := { ks_net : network; ks_w : wtype; ks_ms : bool; ks_h160 : bytes; ks_s256 : bytes; ks_pub : bytes;
+                        ks_cache : option addr_obj }.
+
+(* looks at a key: address(script_type=st, encoding=e) (st = None: the key's own type), address_obj, public() (a deep copy:
+   same fields, same cache), and everything that leaves the cache alone (wif, hash160, as_dict, ...) *)
+(* [LUncompressed h160u s256u] = address_uncompressed() / address(compressed=False), [h160u], [s256u] the hashes of the 65-byte
+   encoding of the key: Key.address stores the answer to `compressed` in the key (self.compressed = False), from then on the
+   object hashes the uncompressed encoding (finding hd_key_left_uncompressed: the one look that is not quiet). *)
+Inductive look := LAddress (st : option string) (e : option enc) | LAddrObj | LPublic | LQuiet
+                | LUncompressed (h160u s256u : bytes).
+Definition look_keeps_key (l : look) : Prop := match l with LUncompressed _ _ => False | _ => True end.
+
+Section History.
+Variable H160 : bytes -> bytes.
+Variable fx : fixes.
+
+Definition hd_own_enc (w : wtype) : enc := match w with WSegwit => EBech | _ => EB58 end.
+
+Definition hd_look (k : hdkey_state) (l : look) : hdkey_state :=
+  let upd c := {| ks_net := ks_net k; ks_w := ks_w k; ks_ms := ks_ms k; ks_h160 := ks_h160 k; ks_s256 := ks_s256 k;
+                  ks_pub := ks_pub k; ks_cache := c |} in
+  match l with
+  | LAddress st e =>
+      let st' := match st with Some s => s | None => script_type_default (ks_w k) (ks_ms k) false end in
+      let e' := match e with Some x => x | None => hd_own_enc (ks_w k) end in
+      (* a refused call (None) leaves the cache as it was *)
+      match lib_address_of_data H160 fx (ks_h160 k) (ks_s256 k) (Some st') (Some e') 0 (ks_net k) with
+      | Some ao => upd (Some ao)
+      | None => k
+      end
+  | LAddrObj =>
+      match ks_cache k with
+      | Some _ => k
+      | None => upd (lib_hd_address_obj H160 fx (ks_net k) (ks_w k) (ks_ms k) (ks_h160 k) (ks_s256 k))
+      end
+  | LPublic | LQuiet => k
+  | LUncompressed h160u s256u =>
+      {| ks_net := ks_net k; ks_w := ks_w k; ks_ms := ks_ms k; ks_h160 := h160u; ks_s256 := s256u; ks_pub := ks_pub k;
+         ks_cache := lib_address_of_data H160 fx h160u s256u (Some (script_type_default (ks_w k) (ks_ms k) false))
+                                         (Some (hd_own_enc (ks_w k))) 0 (ks_net k) |}
+  end.
+
+Definition hd_out (net : network) (k : hdkey_state) : option ores :=
+  match lib_hd_address_obj H160 fx (ks_net k) (ks_w k) (ks_ms k) (ks_h160 k) (ks_s256 k) with
+  | Some ao => Some (lib_out_hd H160 fx net ao (ks_pub k) (ks_w k) (ks_ms k))
+  | None => None
+  end.
+
+Definition hd_out_cached (net : network) (k : hdkey_state) : option ores :=
+  match ks_cache (hd_look k LAddrObj) with
+  | Some ao => Some (lib_out_hd H160 fx net ao (ks_pub k) (ks_w k) (ks_ms k))
+  | None => None
+  end.
+
+Definition same_key (a b : hdkey_state) : Prop :=
+  ks_net a = ks_net b /\ ks_w a = ks_w b /\ ks_ms a = ks_ms b /\ ks_h160 a = ks_h160 b /\ ks_s256 a = ks_s256 b /\
+  ks_pub a = ks_pub b.
+
+Lemma hd_look_same_key k l : look_keeps_key l -> same_key (hd_look k l) k.
+Proof.
+  intros Hq. unfold same_key, hd_look. destruct l as [st e| | | |hu su]; [ | | | |destruct Hq]; try (repeat split; reflexivity).
+  - destruct (lib_address_of_data _ _ _ _ _ _ _ _); repeat split; reflexivity.
+  - destruct (ks_cache k); repeat split; reflexivity.
+Qed.
+
+Lemma hd_looks_same_key ls : forall k, Forall look_keeps_key ls -> same_key (fold_left hd_look ls k) k.
+Proof.
+  induction ls as [|l ls IH]; intros k Hq; [repeat split; reflexivity|].
+  inversion Hq as [|? ? Hl Hls]; subst.
+  simpl. destruct (IH (hd_look k l) Hls) as (A & B & C & D & E & F).
+  destruct (hd_look_same_key k l Hl) as (A' & B' & C' & D' & E' & F').
+  repeat split; etransitivity; eassumption.
+Qed.
+
+Lemma hd_out_history_free net k ls :
+  Forall look_keeps_key ls -> hd_out net (fold_left hd_look ls k) = hd_out net k.
+Proof.
+  intros Hq. destruct (hd_looks_same_key ls k Hq) as (A & B & C & D & E & F).
+  unfold hd_out. rewrite A, B, C, D, E, F. reflexivity.
+Qed.
+
+End History.
